@@ -11,6 +11,7 @@ from ..core import Ctx, Outcome, Violation
 from ..terms import clear_typelib_caches, project
 from ..typeterms import TEXT_POOL, values
 from ..zygote import deep_mutate
+from .c02 import json_safe
 from .c03 import shape
 
 CARRIERS = carriers.CARRIERS
@@ -136,8 +137,8 @@ def collect(ctx: Ctx, profile: str, quick: bool):
                     continue
                 try:
                     js = json.dumps(w)
-                    if json.loads(js) != w:      # non-str keys: the JSON text does not stand for this value
-                        continue
+                    if json.loads(js) != w or not json_safe(w):      # non-str keys, integers beyond 64 bits (read as floats by
+                        continue                                     # the default decoder): the JSON text does not stand for this value
                 except (TypeError, ValueError):
                     continue
                 byvalue, _ = vs.out_of(typelib.unmarshal, ann, w)
